@@ -577,6 +577,90 @@ fn cmd_markdown() -> (u64, Vec<String>) {
     (n, bad)
 }
 
+// ------------------------------------------------------------------------------------------------ expectation grammar (C08)
+/// independent reading of the line grammar (lemmas/expect_lang.rs: line_parts): the modifier starts at the last `(` of the line
+fn c08_line_parts(line: &str) -> (String, String, String) {
+    const KINDS: [&str; 9] = ["equal", "eq", "no-eol", "escaped", "esc", "glob", "gl", "regex", "re"];
+    let whole = (line.to_string(), "equal".to_string(), String::new());
+    if !line.ends_with(')') {
+        return whole;
+    }
+    let Some(open) = line.rfind('(') else { return whole };
+    let Some(ws) = line[..open].chars().last() else { return whole };
+    if !ws.is_whitespace() {
+        return whole;
+    }
+    let inner = &line[open + 1..line.len() - 1];
+    let (k, q) = match inner.chars().last() {
+        Some(c) if "*+?".contains(c) => (&inner[..inner.len() - 1], &inner[inner.len() - 1..]),
+        _ => (inner, ""),
+    };
+    if !(k.is_empty() || KINDS.contains(&k)) || (k.is_empty() && q.is_empty()) {
+        return whole;
+    }
+    (line[..open - ws.len_utf8()].to_string(), if k.is_empty() { "equal".into() } else { k.to_string() }, q.to_string())
+}
+fn c08_long(kind: &str) -> &str {
+    match kind { "eq" => "equal", "esc" => "escaped", "gl" => "glob", "re" => "regex", k => k }
+}
+/// BOUNDED: every line over a small alphabet up to `len` characters: parse never panics, fails only for regex/escaped kinds,
+/// agrees with line_parts (validates the assumed contract of the regular expression), and the canonical rendering parses back to the
+/// same kind, quantifier flags and expression
+fn cmd_c08(len: usize) -> (u64, Vec<String>) {
+    let alphabet: Vec<char> = "a ()?*re".chars().collect();
+    let maker = ExpectationMaker::new(RuleRegistry::default());
+    std::panic::set_hook(Box::new(|_| {}));
+    let mut n = 0u64;
+    let mut bad = vec![];
+    let mut idx = vec![0usize; 0];
+    let mut extra: Vec<String> = ["foo ()", "foo (?) (equal)", "foo (re) (equal)", "x\t(glob+)", "x (no-eol)", "x (esc*)", "[a (regex)", "x (gl) (eq?)"].iter().map(|s| s.replace("\\t", "\t")).collect();
+    loop {
+        let line: String = if let Some(e) = extra.pop() { e } else {
+            // next word in length-lexicographic order
+            let mut i = idx.len();
+            loop {
+                if i == 0 { idx = vec![0; idx.len() + 1]; break; }
+                i -= 1;
+                if idx[i] + 1 < alphabet.len() { idx[i] += 1; for j in i + 1..idx.len() { idx[j] = 0; } break; }
+            }
+            if idx.len() > len { break; }
+            idx.iter().map(|&i| alphabet[i]).collect()
+        };
+        n += 1;
+        let (e, k, q) = c08_line_parts(&line);
+        let r = std::panic::catch_unwind(std::panic::AssertUnwindSafe(|| maker.parse(&line)));
+        let x = match r {
+            Err(_) => { bad.push(format!("{{\"why\":{},\"line\":{}}}", jstr(&format!("C08: parse panics")), jstr(&line))); continue; }
+            Ok(Err(err)) => {
+                if !matches!(c08_long(&k), "regex" | "escaped") {
+                    bad.push(format!("{{\"why\":{},\"line\":{}}}", jstr(&format!("C08: parse fails for kind {k}: {}", err.to_string().replace('"', "'"))), jstr(&line)));
+                }
+                continue;
+            }
+            Ok(Ok(x)) => x,
+        };
+        let (kind, expr, opt, multi) = x.unmake();
+        let want = (c08_long(&k).to_string(), q == "*" || q == "?", q == "*" || q == "+");
+        if (kind.clone(), opt, multi) != want || (kind != "escaped" && kind != "glob" && expr != e.as_bytes()) {
+            bad.push(format!("{{\"why\":{},\"line\":{}}}", jstr(&format!("C08: parsed as kind={kind} expr={:?} opt={opt} multi={multi}, grammar says kind={} expr={e:?} q={q:?}", String::from_utf8_lossy(&expr), want.0)), jstr(&line)));
+            continue;
+        }
+        // canonical rendering parses back
+        let rendered = x.to_expression_string(&Escaper::default());
+        match std::panic::catch_unwind(std::panic::AssertUnwindSafe(|| maker.parse(&rendered))) {
+            Ok(Ok(y)) => {
+                let (k2, e2, o2, m2) = y.unmake();
+                if (k2.clone(), o2, m2) != (kind.clone(), opt, multi) || e2 != expr {
+                    bad.push(format!("{{\"why\":{},\"line\":{}}}", jstr(&format!("C08: rendering {rendered:?} parses back as kind={k2} expr={:?} opt={o2} multi={m2}, was kind={kind} expr={:?} opt={opt} multi={multi}", String::from_utf8_lossy(&e2), String::from_utf8_lossy(&expr))), jstr(&line)));
+                }
+            }
+            _ => bad.push(format!("{{\"why\":{},\"line\":{}}}", jstr(&format!("C08: rendering {rendered:?} does not parse")), jstr(&line))),
+        }
+        if bad.len() > 20 { break; }
+    }
+    (n, bad)
+}
+
 fn cmd_cram_probe() -> (u64, Vec<String>) {
     use scrut::parsers::cram::CramParser;
     use scrut::parsers::parser::Parser;
@@ -630,6 +714,7 @@ fn main() {
         "config" => cmd_config(),
         "markdown" => cmd_markdown(),
         "cram-probe" => cmd_cram_probe(),
+        "c08" => cmd_c08(args.get(2).and_then(|s| s.parse().ok()).unwrap_or(5)),
         "validate" => cmd_validate(),
         _ => {
             eprintln!("usage: verif-replay axioms|diff|escape|config|validate");
